@@ -84,7 +84,7 @@ theorem admits_iff (cfg : Cfg) (s : State) (ctx : Option Id) (n : Nat) :
 
 
 /-- the chunks `apply_memlimit` visits belong to the context it starts from or to ancestors of it -/
-theorem limitsAbove_spec {rk : Nat → Nat} {s : State} (i : Inv rk s) (cfg : Cfg) (f : Nat) (p : Nat) (l : Id)
+theorem limitsAbove_spec {rk : Nat → Nat} {s : State} (i : InvT rk s) (cfg : Cfg) (f : Nat) (p : Nat) (l : Id)
     (h : l ∈ limitsAbove cfg f s (some p)) :
     ∃ lb q, s.get l = some lb ∧ lb.kind = .limit ∧ lb.parent = some q ∧ rk q ≤ rk p := by
   induction f generalizing p with
@@ -133,7 +133,7 @@ theorem limitsAbove_spec {rk : Nat → Nat} {s : State} (i : Inv rk s) (cfg : Cf
 
 /-- the effect of `apply_memlimit` on the heap: exactly the visited limit chunks move by `d`
 (clamped at 0) -/
-theorem applyLim_char {rk : Nat → Nat} {s : State} (i : Inv rk s) (cfg : Cfg) (f : Nat) (t : Option Id)
+theorem applyLim_char {rk : Nat → Nat} {s : State} (i : InvT rk s) (cfg : Cfg) (f : Nat) (t : Option Id)
     (d : Int) (force : Bool) (s' : State) (h : applyLim cfg f s t d force = some s') (j : Nat) :
     (j ∈ limitsAbove cfg f s t →
       s'.get j = (s.get j).map fun o => { o with lcur := ((o.lcur : Int) + d).toNat }) ∧
@@ -279,7 +279,7 @@ theorem limitsAbove_congr {s s' : State} (h : EqButCur s s') (cfg : Cfg) (f : Na
             obtain ⟨lb', hlb', -⟩ := h.get hl
             rw [hlb']
 
-theorem applyLim_eqButCur {rk : Nat → Nat} {s : State} (i : Inv rk s) (cfg : Cfg) (f : Nat) (t : Option Id)
+theorem applyLim_eqButCur {rk : Nat → Nat} {s : State} (i : InvT rk s) (cfg : Cfg) (f : Nat) (t : Option Id)
     (d : Int) (force : Bool) (s' : State) (h : applyLim cfg f s t d force = some s') : EqButCur s s' := by
   intro j
   obtain ⟨h1, h2⟩ := applyLim_char i cfg f t d force s' h j
@@ -324,13 +324,13 @@ theorem applyLim_isSome_of (cfg : Cfg) (f : Nat) (s : State) (t : Option Id) (d 
 
 /-- **a failed request changes nothing**: charging `d > 0` and rolling it back (the path taken when
 the underlying allocator fails) restores every object -/
-theorem applyLim_rollback {rk : Nat → Nat} {s : State} (i : Inv rk s) (cfg : Cfg) (f f' : Nat) (t : Option Id)
+theorem applyLim_rollback {rk : Nat → Nat} {s : State} (i : InvT rk s) (cfg : Cfg) (f f' : Nat) (t : Option Id)
     (d : Int) (hd : 0 ≤ d) (force : Bool) (s1 : State) (h1 : applyLim cfg f s t d false = some s1)
     (hf : limitsAbove cfg f' s t = limitsAbove cfg f s t) :
     ∀ j : Nat, ((applyLim cfg f' s1 t (-d) force).getD s1).get j = s.get j := by
   intro j
   have hsh := applyLim_shapeEq cfg f s t d false s1 h1
-  have i1 : Inv rk s1 := i.shapeEq hsh
+  have i1 : InvT rk s1 := i.shapeEq hsh
   have he := applyLim_eqButCur i cfg f t d false s1 h1
   obtain ⟨a1, a2⟩ := applyLim_char i cfg f t d false s1 h1 j
   cases h2 : applyLim cfg f' s1 t (-d) force with
